@@ -634,11 +634,31 @@ func (x *Unit) selLV(st *State, e *ast.SelectorExpr, sel *types.Selection) *LV {
 	bt := x.info.TypeOf(e.X)
 	if _, ok := under(bt).(*types.Pointer); ok {
 		p := x.eval(st, e.X)
+		x.nilCheck(st, p.T, e.X)
 		cur = &LV{kind: lvBlank, typ: bt, ref: p.T} // pointer value holder
 	} else {
 		cur = x.lvalue(st, e.X)
 	}
 	return x.walkFields(st, cur, bt, sel.Index())
+}
+
+// nilCheck: in blocks marked nilsafe a field access or method call through a pointer needs the pointer to be non-nil.
+func (x *Unit) nilCheck(st *State, ref T, n ast.Expr) {
+	if x.inSpec > 0 || x.block == nil || !x.block.Flags["nilsafe"] || x.inlineDepth > 0 {
+		return
+	}
+	if id, ok := ast.Unparen(n).(*ast.Ident); ok && x.recvName() == id.Name {
+		return // the receiver of the function under contract is non-nil by assumption
+	}
+	x.oblige(st, "nil", x.srcOf(n), Cmp(">", ref, IntLit(0)), n)
+	x.assume(st, Cmp(">", ref, IntLit(0)))
+}
+
+func (x *Unit) recvName() string {
+	if x.sig != nil && x.sig.Recv() != nil {
+		return x.sig.Recv().Name()
+	}
+	return ""
 }
 
 // isFlatStruct: struct-typed fields of heap objects are inline objects with derived addresses.
@@ -836,6 +856,7 @@ func (x *Unit) evalN(st *State, e ast.Expr, n int) []Val {
 			x.unsupportedf(e, "deref of %v", p.Typ)
 			return []Val{x.freshVal(st, "deref", x.info.TypeOf(e))}
 		}
+		x.nilCheck(st, p.T, e.X)
 		if _, ok := under(pt.Elem()).(*types.Struct); ok && !isNamed(pt.Elem(), "time", "Time") {
 			return []Val{x.readStructAt(st, p.T, pt.Elem())}
 		}
@@ -1347,7 +1368,17 @@ func (x *Unit) evalTypeAssert(st *State, e *ast.TypeAssertExpr, n int) []Val {
 	x.oblige(st, "typeassert", x.srcOf(e), ok, e)
 	x.assume(st, ok)
 	x.assume(st, x.typeInv(st, out, 1))
+	x.assumeNoTypedNil(st, out)
 	return []Val{out}
+}
+
+// assumeNoTypedNil: a pointer taken out of an interface value by a successful type test is not nil
+// (typed nil pointers are not stored in interfaces: a convention of this code base, listed as an assumption).
+func (x *Unit) assumeNoTypedNil(st *State, v Val) {
+	if _, ok := under(v.Typ).(*types.Pointer); ok && v.Sort == SInt {
+		x.note("a pointer obtained from an interface value by a successful type assertion or type switch is non-nil (no typed nil pointers in interfaces)")
+		x.assume(st, Cmp(">", v.T, IntLit(0)))
+	}
 }
 
 // typeTest: does interface value v hold dynamic type `to` (or implement interface `to`)?
